@@ -41,6 +41,10 @@ def tracing(tr, stop_before_propagators=False):
         r = saved["lin"](self, E, parameters=parameters)
         tr["edges"] = [(str(a), str(b)) for a, b in E]
         tr["verdict0"] = {str(k): bool(v) for k, v in r.items()}
+        try:
+            tr["shape_lin"] = [(str(sh.symbol), int(sh.order), bool(sh.is_lin_const_coeff_in(list(self.x_), parameters=parameters))) for sh in self.shapes_]
+        except Exception as e:      # the oracle of the glue correspondence is then absent, nothing else
+            tr["shape_lin_error"] = type(e).__name__
         return r
 
     def prop(self, node_is_lin, E):
